@@ -15,6 +15,38 @@ CHECKS = {
          "Every subset of a hash-colliding/awkward-name universe at every fanout 8..1024 (plus deep-collision universe, threshold-straddling and large generated sets) is built with the real builders, reified and compared with the Go map of its entries through all lookup entry points, both iterators and Length; both hashBits helpers are compared with plain arithmetic for every (width, level).",
          "Names limited to the universes; murmur3 implementation (spaolacci) shared with the code under test. hashBits sweep needs the verif-tagged export hooks.",
          "DESIGN.md §5 C02"),
+ "C03": ("bounded-exhaustive tree x path x selector enumeration vs path-resolution model",
+         "Every tree with <= 4/5 nodes over {single/multi-block file, symlink, plain dir, HAMT dir with colliding names}, every path to every node and its slash/segment perturbations, 4 target selectors, matchPath on/off: the selector built by UnixFSPathSelectorBuilder is compiled and run with traversal.WalkMatching and the ordered visitor calls are compared with an independent literal-segment resolution. A known finding (matchPath=true never descends) is reported as KNOWN-FINDING.",
+         "Traversal semantics of the pinned go-ipld-prime v0.21.0.",
+         "DESIGN.md §5 C03"),
+ "C06": ("bounded-exhaustive enumeration + exhaustive single-block withholding + deviation-bounded fault DFS",
+         "Every file shape and sharded directory through the preload reifier, preload selector and entity selector+consume: requested set == entity blocks, no entry block; every single entity block withheld (two error kinds) and every k-th-load-fails sequence (<= 2 failures) must produce an error.",
+         "Independent model of the entity's block set.",
+         "DESIGN.md §5 C06"),
+ "C10": ("stateless deviation-bounded DFS over map-iteration orders, entry permutations and reader fragmentation",
+         "Builders compiled from an instrumented overlay in which every map range asks the explorer for its iteration order; together with all permutations of the entry slice and all fragmentations of the source reader within the deviation bound, every execution of one logical input must observe the same (link,size).",
+         "Maps with > 4 keys get rotations/reversal/adjacent swaps, not all permutations. Overlay rewrite is add-only and leaves /repo untouched.",
+         "DESIGN.md §5 C10"),
+ "C12": ("exhaustive fault enumeration (single blocks, full powerset <= 10 blocks) + deviation-bounded transient-fault DFS",
+         "Every single block and every subset of blocks (DAGs <= 10 blocks) withheld with two error kinds, and every 'k-th load fails' sequence with <= 2 failures, on files (incl. repeated chunks) and sharded directories from both writers: bytes before the error, error identity, lookup errors vs not-found, iteration entries and error counts are compared with an independent model.",
+         "Powerset only for DAGs with <= 10 blocks (reported as cap).",
+         "DESIGN.md §5 C12"),
+ "C16": ("stateless deviation-bounded DFS over write faults and map orders with a crash-point invariant after every commit",
+         "Every write-open/Write/commit of every build is a fail/succeed choice (all single failures and pairs), every map range an order choice; after each commit the store is checked for builder-written blocks whose links into the same build are not stored yet; failure => error and nil link, nil error => whole DAG stored.",
+         "Build menu: files 0..10 chunks at w in {2,3}, symlink, plain/sharded dirs, recursive import, quick builder (ordering only).",
+         "DESIGN.md §5 C16"),
+ "C17": ("stateless model checking of thread interleavings (cooperative scheduler, iterative preemption bounding) + happens-before race oracle",
+         "Real goroutines run one visible operation at a time (instrumented field accesses, modelled locks/Once/atomics, block loads); all schedules with <= 1/2 preemptions (2-thread scenarios also unbounded in thorough) of 9 scenarios on one shared node are executed; every execution is checked for data races (co-enabled conflicting accesses, vector-clock analysis), result equality with the solo run, panics and deadlocks. A separate free-running -race pass is auxiliary evidence.",
+         "Sequential consistency at the granularity of hooked accesses; weak-memory effects out of reach. Scheduling points restricted to sites found shared (fixpoint).",
+         "DESIGN.md §5 C17"),
+ "C18": ("bounded-exhaustive on-disk tree enumeration vs independent filesystem walk",
+         "Every tree with <= 5/6 nodes over {dir, empty file, file, relative/absolute/dangling symlink} is created on a scratch directory, imported and read back through Reify; names, bytes and link targets are compared with an Lstat/ReadDir/Readlink/ReadFile walk; FIFOs and sockets at every position must be rejected; threshold-straddling and multi-chunk cases.",
+         "Scratch directory under /dev/shm or $TMPDIR, removed per case.",
+         "DESIGN.md §5 C18"),
+ "C19": ("stateless deviation-bounded DFS over the answers of the generators' random source",
+         "Every Read of the random source is a choice point with a site-specific menu (coin, size incl. retry triggers, word index incl. duplicates, extension, content); all answer sequences within the bound are run through every exported generator and the returned description is compared with an independent read-back of the stored DAG (and with the library's own CompareDirEntries for directory generators).",
+         "Built as a test binary because the generators need *testing.T. Horizon 600 reads.",
+         "DESIGN.md §5 C19"),
  "C04": ("explicit-state BFS over Seek/Read histories vs io.ReadSeeker model",
          "Breadth-first search over all histories of Read(k)/Seek(o,whence) with boundary arguments on single-block, wrapped and multi-level files, one and two readers (same node / separate nodes), deduplicated on (offset, inner-reader flag, creation offset) read from the implementation through a build-tagged hook, until no new state; plus all depth-3 histories without deduplication.",
          "State key argued over-fine at worst and cross-checked by the un-deduplicated run; offsets confined to [-(L+1),2L+2].",
